@@ -24,7 +24,8 @@ ASSUMPTIONS = [
     "datasets in which no two intervals share a level have no master curve and are outside the property",
 ]
 RULE = ("synthetic records from a planted pair (recession curve Z(n) on a 0.25 mm lattice, constant Sy), 3-9 storms of "
-        "1-3 heavy steps, dry spells of 3-14 steps, time steps 10-60 min, grid steps 1, .5, 2, 2.5 mm; the whole CLI "
+        "1-3 heavy steps, dry spells of 3-14 steps, time steps 10-60 min, grid steps 1, .5, 2, 2.5 mm; records of 20-35 "
+        "events; records starting with 3-30 isolated short pieces low on the curve; the whole CLI "
         "load -> classify -> set-zeta-grid -> rise -> recession on a scratch file; tables compared with the model "
         "Pipeline over Rat and with the planted curves; non-trivial = both curves assembled from at least two "
         "intervals; distinct by input")
@@ -115,6 +116,10 @@ def run(ctx):
     for _ in range(2 if ctx.tier == "quick" else 30):
         # tens of intervals in each curve
         one(ctx, P.gen_truth(ctx.rng, n_events=ctx.rng.randint(20, 35)), ctx.rng.choice([1.0, 2.0, 2.5]))
+    for _ in range(6 if ctx.tier == "quick" else 100):
+        # many pieces low on the curve that share no level with anything, then the main body
+        one(ctx, P.gen_truth(ctx.rng, n_events=ctx.rng.randint(2, 7), isolated=ctx.rng.randint(3, 30)),
+            ctx.rng.choice([1.0, 0.5, 2.0]))
     for _ in range(2 if ctx.tier == "quick" else 20):
         fresh_process_workflow(ctx, P.gen_truth(ctx.rng, noise=ctx.rng.choice([0.0, 0.4])), ctx.rng.choice([1.0, 0.5, 2.0]))
 
